@@ -1,3 +1,4 @@
 from . import simulation  # noqa
+from . import resource_manager  # noqa
 from . import frames  # noqa
 from . import claims  # noqa
